@@ -19,6 +19,7 @@ pub mod c17;
 pub mod c18;
 pub mod c19;
 pub mod common;
+pub mod selftest;
 
 pub fn dispatch(id: &str, tier: Tier) -> i32 {
     match id {
@@ -41,6 +42,7 @@ pub fn dispatch(id: &str, tier: Tier) -> i32 {
         "C17" => c17::run(tier).finish(),
         "C18" => c18::run(tier).finish(),
         "C19" => c19::run(tier).finish(),
+        "selftest" => selftest::run(),
         _ => {
             eprintln!("unknown property {id}");
             2
